@@ -11,6 +11,7 @@ from __future__ import annotations
 import random
 
 import idcommon as ic
+import linetrace as lt
 from common import MachineryError, Outcome, seed, workdir
 
 PID = "C02"
@@ -52,6 +53,13 @@ def run(tier: str) -> int:
         if tv_ident is not None and tv_ident != ident:
             raise MachineryError(f"oracle disagreement IDRef vs TianOK on {rid}")
     ic.report(out, vs, by_id, idx, only_clauses=CLAUSES)
+    # line-level trace validation (IDLines.tla, hook y0._verif): one action per ID line; diagnostic, not gating,
+    # because a refactoring of the recursion that keeps every answer right must not raise an alarm
+    rng = random.Random(20 + seed())
+    lt_items = ic.with_gids(gens[0]["items"], "A3-") + ic.sample(ic.with_gids(gens[1]["items"], "A4-"), 150 if tier == "quick" else 1500, rng)
+    traces = lt.validate(wd, lt_items)
+    if traces["accepted"] != traces["traces"]:
+        print(f"DIAGNOSTIC property={PID} line traces rejected by IDLines.tla: {traces['traces'] - traces['accepted']} of {traces['traces']}, e.g. {traces['rejected_sample']}")
     ident_n = sum(1 for v in vs.values() if v["clause"] == "verdict-only")
     refused = sum(1 for v in vs.values() if v["clause"] == "refused")
     nontriv = {rid.rsplit(":", 1)[0] for rid, v in vs.items() if by_id[rid][0]["b"]}
@@ -72,7 +80,10 @@ def run(tier: str) -> int:
                      "outcome": by_id[i][1]["out"]["k"], "verdict": vs[i]["clause"]} for i in (ids[0], ids[len(ids) // 2], ids[-1])],
         "exhaustive": True,
         "design_mc": mcs,
+        "line_traces": traces,
     }
+    cov["states"] += traces["distinct"]
+    cov["transitions"] += traces["generated"]
     return out.finish("model_checking", cov, [
         "identifiability oracle: TianOK (Tian / Huang-Valtorta), model-checked equal to the reference ID verdict and to brute-force hedge existence on all 3-node inputs",
         "graphs with more than 6 nodes are not explored"])
